@@ -718,3 +718,39 @@ def failed_close_then_unlock_family(thin: int = 1) -> List[dict]:
                             steps += [{"op": "close", "pool": 0, "place": "eager", "re": True}, {"op": "settle"}, copy.deepcopy(nxt), {"op": "settle"}]
                             cases.append({"pools": [{"cls": "TaskPool", "size": size}], "steps": steps})
     return cases[::thin] if thin > 1 else cases
+
+
+def swallow_then_cancel_again_family(thin: int = 1) -> List[dict]:
+    """A worker shrugs off a first cancellation (catches CancelledError once and carries on) and is then cancelled again - by id, by
+    group, globally or by stop(): the second cancellation must arrive like the first one:
+
+        spawn (workers swallow one cancellation) ; tick 3 ; cancel(id) ; tick a ; gate? ; cancel(id) / cancel_group / cancel_all / stop ;
+        tick b ; settle ; drain"""
+    cases: List[dict] = []
+    for cls in ("TaskPool", "SimpleTaskPool"):
+        for size in (2, None):
+            for second in ("id", "group", "all", "stop", "stop_all"):
+                if cls == "TaskPool" and second.startswith("stop"):
+                    continue
+                for a, b in itertools.product(range(1, 4), range(2)):
+                    for ccb in (None, {"async": False}, {"async": True, "wait": True}):
+                        wk = {"script": [["wait"], ["wait"], ["wait"]], "fname": "w", "on_cancel": "swallow"}
+                        sp = {"op": "spawn", "pool": 0, "kind": "apply", "num": 2, "place": "inline", "worker": dict(wk)}
+                        if ccb is not None:
+                            sp["ccb"] = dict(ccb)
+                        steps = [sp, {"op": "tick", "k": 3}, {"op": "cancel", "pool": 0, "refs": [["live", 0]], "place": "inline"}, {"op": "tick", "k": a}]
+                        steps.append({"op": "cancel", "pool": 0, "refs": [["live", 0]], "place": "inline"} if second == "id" else
+                                     {"op": "cancel_group", "pool": 0, "ref": ["live", 0], "place": "inline"} if second == "group" else
+                                     {"op": "cancel_all", "pool": 0, "place": "inline"} if second == "all" else
+                                     {"op": "stop", "pool": 0, "n": 2, "place": "inline"} if second == "stop" else
+                                     {"op": "stop", "pool": 0, "all": True, "place": "inline"})
+                        _ticks(steps, b)
+                        steps.append({"op": "settle"})
+                        steps.extend(copy.deepcopy(DRAIN))
+                        pool: Dict[str, Any] = {"cls": cls, "size": size}
+                        if cls == "SimpleTaskPool":
+                            pool["worker"] = dict(wk)
+                            if ccb is not None:
+                                pool["ccb"] = dict(ccb)
+                        cases.append({"pools": [pool], "steps": steps})
+    return cases[::thin] if thin > 1 else cases
